@@ -28,6 +28,13 @@
 
 #include "simapi.h"
 
+/* trees before the classifier learnt the received length (used only when validating fix commits against their parents) */
+#ifdef GLUE_CLASSIFIER_NO_LEN
+#define DSE(frame, len, table, mac) derive_session_event((frame), (table), (mac))
+#else
+#define DSE(frame, len, table, mac) derive_session_event((frame), (len), (table), (mac))
+#endif
+
 struct glue_node {
     int   kind;
     void *iface_ctx;
@@ -158,10 +165,11 @@ static void darwin_tick(glue_node *n) {
 }
 
 /* ---- Darwin: frame branch of lltdLoop (darwin-main.c:283-405) ---- */
-static void darwin_rx(glue_node *n, void *recvBuffer) {
+static void darwin_rx(glue_node *n, void *recvBuffer, size_t recvLen) {
+    (void)recvLen;
     lltd_demultiplex_header_t *header = (lltd_demultiplex_header_t *)recvBuffer;
 
-    int sess_event = derive_session_event(recvBuffer, n->sessionTable, n->macAddress);
+    int sess_event = DSE(recvBuffer, recvLen, n->sessionTable, n->macAddress);
     n->last_sess_event = sess_event;
 
     if (header->opcode == opcode_discover) {
@@ -227,12 +235,11 @@ static void darwin_rx(glue_node *n, void *recvBuffer) {
 }
 
 void glue_rx(glue_node *n, void *buf, size_t len) {
-    (void)len;
     n->last_sess_event = -99;
     switch (n->kind) {
     case GLUE_BARE:
         if (n->side_classifier) {
-            n->last_sess_event = derive_session_event(buf, NULL, n->macAddress);
+            n->last_sess_event = DSE(buf, len, NULL, n->macAddress);
         }
         parseFrame(buf, n->iface_ctx);
         break;
@@ -240,7 +247,7 @@ void glue_rx(glue_node *n, void *buf, size_t len) {
         /* linux-embedded-main.c:lltdLoop */
         lltd_demultiplex_header_t *header = (lltd_demultiplex_header_t *)buf;
         if (n->side_classifier) {
-            n->last_sess_event = derive_session_event(buf, NULL, n->macAddress);
+            n->last_sess_event = DSE(buf, len, NULL, n->macAddress);
         }
         switch_state_mapping(n->mappingAutomata, header->opcode, "rx");
         switch_state_session(n->sessionAutomata, header->opcode, "rx");
@@ -248,7 +255,7 @@ void glue_rx(glue_node *n, void *buf, size_t len) {
         break;
     }
     case GLUE_DARWIN:
-        darwin_rx(n, buf);
+        darwin_rx(n, buf, len);
         break;
     default:
         break;
@@ -395,7 +402,7 @@ void glue_api_mapping_set(glue_node *n, int state, uint64_t last_ts) {
 }
 int glue_api_classify(glue_node *n, const void *frame, size_t len) {
     (void)len;
-    return derive_session_event(frame, n->sessionTable, n->macAddress);
+    return DSE(frame, len, n->sessionTable, n->macAddress);
 }
 
 int glue_ctor_probe(int which) {
